@@ -26,6 +26,10 @@ Mutants tried on a private copy (VERIF_REPO=/tmp/repo_c10), all reported (exit 1
       C10Solve proofs + correspondence + row-of-Rx=Qᵀb monitor
   Anderson α: `γ(i)−γ(0)`, `1−γ(0)`; `G.col(ring_head()) = g`; reset copy guard inverted; `std::max(n, memory)`
       -> C10Anderson / C10History proofs or shape check + correspondence + affine / alignment / size monitors
+  (audit follow-up, quick, exit 1 each) threshold `<`→`<=`, back-substitution sign, α mid telescoping, `r(i) = s`
+      -> C10Solve / C10Anderson proofs or skeleton check + row / affine / ‖QR−A‖ monitors
+
+The first ops of every run are ZERO_SCALE_OPS (scale_R(0), then solve with tol > 0 and tol = 0).
 """
 import math
 import os
@@ -706,7 +710,7 @@ def main(argv):
              '(thorough; plus every word over {add, remove} up to length 11) for capacities m∈{1,2,3} × dimensions n∈{1,2,3,4} (m > n included: the (n+1)-th '
              'column is necessarily dependent), one DFS with push/pop, a solve after every node; seeded random '
              'QR sequences n ≤ 6, m ≤ 5 (well-conditioned, nearly dependent 1e-12…1e-2, wide dynamic range, '
-             'degenerate: zero / repeated columns, m > n overflow) and Anderson runs on noisy affine contractions '
+             'degenerate: zero / repeated columns, m > n overflow), a fixed scale_R(0) sequence, and Anderson runs on noisy affine contractions '
              '(memory 1…10 above and below n, restarts, rescalings, min_div_fac ∈ {default, 1e-3, 0}, repeated '
              'residuals); distinct = distinct (op line, output) pairs of add/rem/scale/solve/acomp',
     )
